@@ -217,6 +217,21 @@ def work_C01(run, rng, budget):
                 run.fail("string-differs-under-relabelling",
                          f"two listings of one molecule give {s0!r} and {s2!r}",
                          {"mol": mol_repr(m), "relabelled": mol_repr(m2), "perm": perm, "strings": [s0, s2]})
+        # the two descriptions as files: atom lines in another order with other index values, bond lines in
+        # another order and orientation
+        if m.n() <= 60 and rng.random() < 0.4:
+            m2, perm = G.relabel(m, rng)
+            ta, _ = RD.render_v3000(m, rng, {"star": False})
+            tb, _ = (RD.render_v3000 if rng.random() < 0.7 else RD.render_v2000)(m2, rng, {"star": False} )
+            ga, ea = safe(graph_from_molfile_text, ta)
+            gb, eb = safe(graph_from_molfile_text, tb)
+            sa, ea2 = safe(tucan_of, ga) if ga is not None else (None, ea)
+            sb, eb2 = safe(tucan_of, gb) if gb is not None else (None, eb)
+            run.case(("C01files", ta, tb), nontrivial)
+            run.stats["file_pairs"] += 1
+            if sa is None or sb is None or sa != sb or sa != s0:
+                run.fail("string-differs-under-relabelling", f"two files describing one molecule give {sa!r} and {sb!r} (graph level: {s0!r})",
+                         {"mol": mol_repr(m), "relabelled": mol_repr(m2), "perm": perm, "files": [ta, tb], "strings": [sa, sb]})
         run.sample({"mol": mol_repr(m), "tucan": s0})
     # the repository's own molecules, relabelled
     files = repo_molfiles()
@@ -579,6 +594,26 @@ def work_C06(run, rng, budget):
             if s != s0:
                 run.fail("non-identity-data-changes-the-string", f"{s0!r} vs {s!r}",
                          {"mol": mol_repr(m), "variant": mol_repr(m2), "texts": [base_text, text], "strings": [s0, s]})
+        # line-ending style, in memory and through a file on disk (graph_from_file)
+        if rng.random() < 0.5:
+            ls = base_text.splitlines()
+            eol = rng.choice(["\n", "\r\n", "\r"])
+            text = eol.join(ls) + (eol if rng.random() < 0.5 or not ls[-1] else "")
+            g, err = safe(graph_from_molfile_text, text)
+            s, err2 = safe(tucan_of, g) if g is not None else (None, err)
+            import tempfile
+            from tucan.io import graph_from_file
+            with tempfile.TemporaryDirectory() as d:
+                fp = os.path.join(d, "m.mol")
+                with open(fp, "wb") as fh:
+                    fh.write(text.encode("utf-8"))
+                gf, errf = safe(graph_from_file, fp)
+            sf, errf2 = safe(tucan_of, gf) if gf is not None else (None, errf)
+            run.case(("C06eol", base_text, eol), True)
+            run.stats["eol:" + repr(eol)] += 1
+            if s != s0 or sf != s0:
+                run.fail("non-identity-data-changes-the-string", f"line endings {eol!r}: {s0!r} vs {s!r} (text) / {sf!r} (file)",
+                         {"mol": mol_repr(m), "texts": [base_text, text], "strings": [s0, s, sf]})
         run.sample({"mol": mol_repr(m), "tucan": s0})
     # graph level: charges, coordinates, bond types, extra attributes
     for m in molecules(run, rng, 60 * budget, max_n=14):
@@ -590,7 +625,8 @@ def work_C06(run, rng, budget):
         if s != s0:
             run.fail("non-identity-data-changes-the-string", f"{s0!r} vs {s!r}", {"mol": mol_repr(m), "variant": mol_repr(m2)})
     return "pairs of molfile renderings (V3000/V3000 and V3000/V2000) of one molecule that differ in coordinates, bond types, " \
-           "charges, header lines, index values, extra keywords/blocks, blanks, continuation points and line endings, plus " \
+           "charges, header lines, index values, extra keywords/blocks, blanks, continuation points and line endings (LF, CRLF, CR; " \
+           "in memory and through graph_from_file), plus " \
            "graph-level pairs; every pair is a distinct non-trivial case"
 
 
@@ -737,6 +773,32 @@ def work_C07(run, rng, budget):
         run.stats["malformed"] += 1
         line, real, _ = R.op_moltext("\n".join(ls))
         run.corr(line, real, "exact")
+    # star atoms in the forms the reader treats specially: a bond to a star atom without ENDPTS (polymers: ignored),
+    # an ENDPTS list whose count is wrong, a bond between two star atoms, ENDPTS before / after other keywords
+    for _ in range(6 * budget):
+        n = rng.randint(2, 6)
+        atoms = [f"M  V30 {i + 1} {rng.choice(['C', 'N', 'O'])} {i}.0 0 0 0" for i in range(n)]
+        atoms += [f"M  V30 {n + 1} * 0 0 0 0", f"M  V30 {n + 2} * 1 1 0 0"]
+        ends = rng.sample(range(1, n + 1), rng.randint(1, n))
+        good = f"ENDPTS=({len(ends)} {' '.join(map(str, ends))})"
+        variants = {
+            "ok": f"M  V30 2 1 {n + 1} 1 {good} ATTACH=ANY",
+            "ok_after_keyword": f"M  V30 2 1 1 {n + 1} CFG=1 {good}",
+            "no_endpts": f"M  V30 2 1 {n + 1} 1",
+            "count_mismatch": f"M  V30 2 1 {n + 1} 1 ENDPTS=({len(ends) + 1} {' '.join(map(str, ends))}) ATTACH=ANY",
+            "two_stars": f"M  V30 2 1 {n + 1} {n + 2} {good}",
+            "empty_endpts": f"M  V30 2 1 {n + 1} 1 ENDPTS=()",
+            "non_numeric": f"M  V30 2 1 {n + 1} 1 ENDPTS=(1 x)",
+            "unknown_atom": f"M  V30 2 1 1 {n + 9}",
+            "unknown_endpoint": f"M  V30 2 1 {n + 1} 1 ENDPTS=(2 1 {n + 9})",
+        }
+        for kind, bl in variants.items():
+            ls = ["", "  VERIF", "", "  0  0  0     0  0            999 V3000", "M  V30 BEGIN CTAB",
+                  f"M  V30 COUNTS {n + 2} 2 0 0 0", "M  V30 BEGIN ATOM"] + atoms + \
+                 ["M  V30 END ATOM", "M  V30 BEGIN BOND", "M  V30 1 1 1 2", bl, "M  V30 END BOND", "M  V30 END CTAB", "M  END"]
+            line, real, _ = R.op_moltext("\n".join(ls))
+            run.corr(line, real, "exact")
+            run.stats["star_form:" + kind] += 1
     for f in repo_molfiles():
         text = open(f).read()
         line, real, _ = R.op_moltext(text)
@@ -771,6 +833,19 @@ def c08_molecules(run, rng, budget):
         m = G.gen_mol(rng, family="charged_dt")
         sizes(run, m)
         yield m, {"use_codes": True, "dt": True, "decoy_codes": False}
+    # D/T atoms in files with explicit zero entries
+    for _ in range(6 * budget):
+        m = G.gen_mol(rng, family="charged_dt")
+        sizes(run, m)
+        yield m, {"dt": True, "zeros": True}
+    # more than 99 atoms: three-digit numbers fill their columns, so the fields of a bond line abut
+    for _ in range(2 * budget):
+        n = rng.randint(100, 140)
+        edges = G.sk_path(n) + [(rng.randrange(n), n - 1 - rng.randrange(20)) for _ in range(6)]
+        edges = sorted({(min(a, b), max(a, b)) for a, b in edges if a != b})
+        m = G.decorate(n, edges, rng, family="over_99_atoms")
+        sizes(run, m)
+        yield m, None
     for m in molecules(run, rng, 150 * budget, max_n=14):
         yield m, None
 
@@ -838,7 +913,8 @@ def graph_for_writer(m: G.Mol, rng, wide=False) -> nx.Graph:
             d["x_coord"] = float(rng.choice([-1, 1]) * (10 ** w + rng.random()))
             d["y_coord"] = float(rng.uniform(-1e3, 1e3))
             d["z_coord"] = float(rng.choice([0.0, 1e-7, -0.0, rng.uniform(-9, 9)]))
-    return g
+    # half of the time listed in another order than the labels (as relabel_nodes / canonicalize_molecule produce)
+    return any_listing(g, rng)
 
 
 def work_C09(run, rng, budget):
@@ -863,22 +939,46 @@ def work_C09(run, rng, budget):
             run.fail("written-molfile-rejected", real, {"mol": mol_repr(m), "text": text})
             continue
         why = None
-        if list(h.nodes) != list(g.nodes):
+        # the k-th listed atom is read back as atom k; bonds follow their atoms
+        order = list(g.nodes)
+        pos = {lab: i for i, lab in enumerate(order)}
+        run.stats["listing:" + ("label order" if order == sorted(order) else "other order")] += 1
+        if list(h.nodes) != list(range(len(order))):
             why = "atom order differs"
         else:
             for n in g.nodes:
-                a, b = g.nodes[n], h.nodes[n]
+                a, b = g.nodes[n], h.nodes[pos[n]]
                 for k in ("element_symbol", "chg", "rad", "mass"):
                     if a.get(k) != b.get(k):
                         why = f"atom {n}: {k} {a.get(k)!r} -> {b.get(k)!r}"
                 for k in ("x_coord", "y_coord", "z_coord"):
                     if f"{a.get(k, 0):.6f}" != f"{b.get(k, 0):.6f}" and float(f"{a.get(k, 0):.6f}") != b.get(k, 0):
                         why = f"atom {n}: {k} {a.get(k)!r} -> {b.get(k)!r}"
-            if [(x, y, d.get("bond_type")) for x, y, d in g.edges(data=True)] != [(x, y, d.get("bond_type")) for x, y, d in h.edges(data=True)]:
+            if sorted((tuple(sorted((pos[x], pos[y]))), d.get("bond_type")) for x, y, d in g.edges(data=True)) != \
+                    sorted((tuple(sorted((x, y))), d.get("bond_type")) for x, y, d in h.edges(data=True)):
                 why = "bond list differs"
         if why:
             run.fail("write-read-roundtrip-differs", why, {"mol": mol_repr(m), "text": text})
         run.sample({"mol": mol_repr(m), "lines": text.split("\n")[6:9]})
+    # (re-)calculated coordinates: everything but the coordinates reads back
+    for m in molecules(run, rng, 12 * budget, max_n=10):
+        g = graph_for_writer(m, rng)
+        text, err = safe(graph_to_molfile, g, True)
+        run.case(("C09calc", mol_repr(m)), True)
+        run.stats["calc_coordinates"] += 1
+        if err is not None:
+            run.fail("writer-raises", f"calc_coordinates=True: {type(err).__name__}", {"mol": mol_repr(m)})
+            continue
+        h, err = safe(graph_from_molfile_text, text)
+        order = list(g.nodes)
+        pos = {lab: i for i, lab in enumerate(order)}
+        ok = h is not None and list(h.nodes) == list(range(len(order))) and all(
+            g.nodes[n].get(k) == h.nodes[pos[n]].get(k) for n in g.nodes for k in ("element_symbol", "chg", "rad", "mass")) and \
+            sorted((tuple(sorted((pos[x], pos[y]))), d.get("bond_type")) for x, y, d in g.edges(data=True)) == \
+            sorted((tuple(sorted((x, y))), d.get("bond_type")) for x, y, d in h.edges(data=True)) and \
+            all(len(l) <= 79 for l in text.split("\n"))
+        if not ok:
+            run.fail("write-read-roundtrip-differs", "with calc_coordinates=True", {"mol": mol_repr(m), "text": text})
     # length-targeted logical lines
     for base in (70, 71, 72, 73, 74, 141, 142, 143, 144, 145, 212, 213, 214, 215, 216, 284, 285):
         for variant in range(2 * budget):
@@ -905,6 +1005,9 @@ def work_C09(run, rng, budget):
         if any(d.get("rad", 1) > 3 for _, d in g.nodes(data=True)):
             continue  # outside the molfile format's radical range 1..3
         s1, err = safe(tucan_of, g.copy())
+        if rng.random() < 0.5:  # write the canonical graph (listed in another order than its labels)
+            g, _ = safe(canonicalize_molecule, g)
+            run.stats["chain_via_canonical_graph"] += 1
         text, err2 = safe(graph_to_molfile, g)
         if err is not None or err2 is not None:
             continue
@@ -915,7 +1018,7 @@ def work_C09(run, rng, budget):
         if s2 != s1:
             run.fail("string-molfile-string-differs", f"{s1!r} -> {s2!r}", {"tucan": s, "molfile": text})
     return "graphs with charges/radicals/masses/bond types and coordinates of 1-100+ digits (forcing 0, 1 and several wraps " \
-           "at arbitrary positions) written by the real writer and read back; logical lines of targeted lengths " \
+           "at arbitrary positions), listed in label order or not, written by the real writer and read back; logical lines of targeted lengths " \
            "70-74, 141-145, 212-216, 284-285 through wrap and splice; string->graph->molfile->graph->string chains"
 
 
@@ -1056,6 +1159,13 @@ def attr_multiset(g):
 def work_C12(run, rng, budget):
     for m in molecules(run, rng, 120 * budget):
         g = any_listing(mol_graph(m), rng)
+        # bonds without any record (as the TUCAN parser produces them), or only some with a bond type
+        how = rng.random()
+        if how < 0.45:
+            for _, _, d in g.edges(data=True):
+                if how < 0.3 or rng.random() < 0.5:
+                    d.pop("bond_type", None)
+            run.stats["bonds:" + ("no record" if how < 0.3 else "some without type")] += 1
         run.stats["listing_order:" + ("label" if list(g.nodes) == sorted(g.nodes) else "other")] += 1
         before = P.show_graph(g)
         ids_before = {n: id(d) for n, d in g.nodes(data=True)}
@@ -1111,7 +1221,7 @@ def work_C12(run, rng, budget):
         if len(set(hist)) != 1:
             run.fail("repeated-serialize-differs", f"{hist}", {"mol": mol_repr(m)})
         run.sample({"mol": mol_repr(m), "sigma": sigma})
-    return "random molecules with a unique tag, charge, coordinates and bond types on every atom/bond; the real canonical graph " \
+    return "random molecules with a unique tag, charge, coordinates on every atom and bond types on every / some / no bond; the real canonical graph " \
            "is compared with the argument under the recovered bijection (all attributes, all bond records), the argument is " \
            "snapshotted before/after, aliasing of attribute dictionaries is checked, and canonicalize/serialize are repeated " \
            "1-4 times on the same objects; non-trivial = >= 2 atoms"
